@@ -176,6 +176,29 @@ Definition dart_model_ok (c : c6_case) : bool :=
       end
   end.
 
+(** the references of the model cover the references of the text: every name a real file uses (class, typedef, enum,
+    extension, JSON helper) is provided by a declaration the model emits in that file or lets a declaration of that
+    file refer to. Without this the closure theorem would speak about fewer references than the files make. *)
+Fixpoint strip_suffix_json (s : string) : string :=
+  if String.eqb s "_json" then "" else match s with EmptyString => EmptyString | String c r => String c (strip_suffix_json r) end.
+Definition ends_json (s : string) : bool := negb (String.eqb (strip_suffix_json s) s).
+Definition id_base (id : string) : string :=
+  if String.eqb id "__DateTime_json" then "dateTime" else if ends_json id then strip_suffix_json id else id.
+Definition provides (id u : string) : bool :=
+  let b := id_base id in let lf := lower_first_ok b in
+  String.eqb u b || String.eqb u (lf ++ "FromJson") || String.eqb u (lf ++ "ToJson")
+  || String.eqb u ("_" ++ b ++ "Ext") || String.eqb u (lf ++ "Label").
+
+Definition dart_uses_covered (c : c6_case) : bool :=
+  match dart_model c with
+  | Ok st =>
+      forallb (fun f =>
+        let ds := filter (fun d => String.eqb (dd_file d) (df_name f)) (ds_decls st) in
+        let ids := (map dd_id ds ++ flat_map dd_mentions ds ++ flat_map dd_impl ds)%list in
+        forallb (fun u => is_dart_builtin u || existsb (fun id => provides id u) ids) (df_uses f)) (c6_files c)
+  | _ => true
+  end.
+
 (** the link condition on the model's output (Proofs/C06t.v: links_closed_sound) *)
 Definition dart_links_ok (c : c6_case) : bool :=
   match dart_model c with Ok st => links_closed st | _ => true end.
@@ -185,5 +208,5 @@ Section Generic.
   Fixpoint mism_from (n : N) (cases : list A) : list N :=
     match cases with [] => [] | c :: r => if f c then mism_from (N.succ n) r else n :: mism_from (N.succ n) r end.
 End Generic.
-Definition mismatches := mism_from (fun c => AnaCross.ana_cross_e (c6_prog c) (c6_enums c) (c6_ana c) && chk_model c && chk_files c && dart_model_ok c) 0%N.
+Definition mismatches := mism_from (fun c => AnaCross.ana_cross_e (c6_prog c) (c6_enums c) (c6_ana c) && chk_model c && chk_files c && dart_model_ok c && dart_uses_covered c) 0%N.
 Definition prop_failures := mism_from (fun c => chk_prop c && dart_links_ok c) 0%N.
